@@ -636,7 +636,7 @@ func (f *field) pattern() string {
 		s := f.b[i]
 		if f.quote[i] {
 			for {
-				i := strings.IndexAny(s, `?*[\]-!^`)
+				i := strings.IndexAny(s, `?*[\]-!^:`)
 				if i == -1 {
 					b.WriteString(s)
 					break
